@@ -6,7 +6,7 @@ CONSTANTS
   Ticks <- MCTicksQ
   SysDurs <- MCSysDurs
   ExplicitDurs <- MCDurs
-  MaxSteps = 3
+  MaxSteps = 4
 INIT Init
 NEXT Next
 CHECK_DEADLOCK FALSE
